@@ -673,3 +673,226 @@ func ruleCodecLenPrefix(e *Engine, r *Report, minInst int, pkg string, sovName s
 	}
 	r.floor("TBL-codec-lenprefix", n, minInst)
 }
+
+// ---------------------------------------------------------------------------
+// order-independent map iteration
+
+// rangeLoopBlocks: the blocks of the loop driven by `rg` (header, body), i.e.
+// those from which the block holding the Next of rg is reachable again.
+func rangeLoopBlocks(rg *ssa.Range) (header *ssa.BasicBlock, body map[*ssa.BasicBlock]bool) {
+	fn := rg.Parent()
+	for _, b := range fn.Blocks {
+		for _, in := range b.Instrs {
+			if nx, ok := in.(*ssa.Next); ok && nx.Iter == ssa.Value(rg) {
+				header = b
+			}
+		}
+	}
+	if header == nil {
+		return nil, nil
+	}
+	body = map[*ssa.BasicBlock]bool{}
+	// blocks reachable from header's loop-successor that can reach header
+	canReach := map[*ssa.BasicBlock]bool{header: true}
+	changed := true
+	for changed {
+		changed = false
+		for _, b := range fn.Blocks {
+			if canReach[b] {
+				continue
+			}
+			for _, s := range b.Succs {
+				if canReach[s] {
+					canReach[b] = true
+					changed = true
+				}
+			}
+		}
+	}
+	var walk func(b *ssa.BasicBlock)
+	walk = func(b *ssa.BasicBlock) {
+		if body[b] || b == header {
+			return
+		}
+		body[b] = true
+		for _, s := range b.Succs {
+			if header.Dominates(s) {
+				walk(s)
+			}
+		}
+	}
+	for _, s := range header.Succs {
+		if canReach[s] && header.Dominates(s) && s != header {
+			walk(s)
+		}
+	}
+	return header, body
+}
+
+// pureFunc: a module function without stores to non-local memory, map
+// updates, sends or impure calls (depth-bounded); used to accept loops whose
+// bodies only evaluate predicates.
+func (e *Engine) pureFunc(fn *ssa.Function, depth int, seen map[*ssa.Function]bool) bool {
+	if fn == nil || len(fn.Blocks) == 0 {
+		return false
+	}
+	if seen[fn] {
+		return true
+	}
+	seen[fn] = true
+	pure := true
+	forEachInstr(fn, func(in ssa.Instruction) {
+		if !pure {
+			return
+		}
+		if !e.pureInstr(in, depth, seen) {
+			pure = false
+		}
+	})
+	return pure
+}
+
+func (e *Engine) pureInstr(in ssa.Instruction, depth int, seen map[*ssa.Function]bool) bool {
+	switch x := in.(type) {
+	case *ssa.Store:
+		al := rootAlloc(x.Addr)
+		return al != nil && !al.Heap
+	case *ssa.MapUpdate, *ssa.Send, *ssa.Go, *ssa.Defer, *ssa.Select:
+		return false
+	case *ssa.Call:
+		if b, ok := x.Call.Value.(*ssa.Builtin); ok {
+			switch b.Name() {
+			case "len", "cap", "min", "max":
+				return true
+			}
+			return false
+		}
+		if e.NoReturnCall(x) {
+			return true // fail-stop
+		}
+		sc := x.Call.StaticCallee()
+		if sc == nil {
+			return false
+		}
+		if p := fnPkg(sc); p != nil && !inModule(p) {
+			switch p.Path() {
+			case "strings", "bytes", "math", "unicode", "unicode/utf8", "strconv", "sort", "errors", "fmt":
+				return sc.Name() != "Sort" && sc.Name() != "Slice" && !strings.HasPrefix(sc.Name(), "Print") && !strings.HasPrefix(sc.Name(), "Fprint")
+			}
+			// the project logger: diagnostics only
+			if strings.HasSuffix(p.Path(), "/logger") || strings.Contains(p.Path(), "goutils/logutil") {
+				return true
+			}
+			return false
+		}
+		if strings.Contains(fname(sc), "logger") || strings.Contains(fname(sc), "plog") {
+			return true
+		}
+		if depth == 0 {
+			return false
+		}
+		return e.pureFunc(sc, depth-1, seen)
+	}
+	return true
+}
+
+// orderIndependentRange: the observable effect of iterating map `rg` does
+// not depend on the iteration order: the loop body only evaluates pure
+// expressions and (a) returns constants / leaves the loop (a search: any /
+// all), (b) sets sticky boolean flags or counters by commutative updates,
+// (c) inserts into / deletes from another map under the iteration's own key,
+// (d) fail-stops or logs. Appending to a slice is accepted when a sort call
+// follows the loop in the same function.
+func (e *Engine) orderIndependentRange(rg *ssa.Range) (bool, string) {
+	header, body := rangeLoopBlocks(rg)
+	if header == nil {
+		return false, "loop not recognised"
+	}
+	fn := rg.Parent()
+	appended := false
+	why := ""
+	for b := range body {
+		for _, in := range b.Instrs {
+			switch x := in.(type) {
+			case *ssa.Return:
+				for _, rv := range x.Results {
+					if _, isC := rv.(*ssa.Const); !isC {
+						// returning data selected by the iteration: order dependent only if more than one element can match; accept error/nil constants only
+						why = "returns a value computed from an element at " + e.ipos(in)
+						return false, why
+					}
+				}
+			case *ssa.Store:
+				al := rootAlloc(x.Addr)
+				if al == nil || al.Heap {
+					// field or element store: allowed when it writes a constant (sticky flag)
+					if _, isC := x.Val.(*ssa.Const); !isC {
+						return false, "stores a non-constant into shared memory at " + e.ipos(in)
+					}
+				}
+			case *ssa.MapUpdate:
+				if stripConv(x.Map) == stripConv(rg.X) {
+					return false, "updates the map being ranged at " + e.ipos(in)
+				}
+				// key must come from the iteration (distinct keys commute)
+				if !e.dependsOn(x.Key, func(v ssa.Value) bool { nx, ok := v.(*ssa.Next); return ok && nx.Iter == ssa.Value(rg) }, 0) {
+					return false, "map update under a key that is not the iteration key at " + e.ipos(in)
+				}
+			case *ssa.Call:
+				if b, ok := x.Call.Value.(*ssa.Builtin); ok {
+					switch b.Name() {
+					case "append":
+						appended = true
+						continue
+					case "delete", "len", "cap", "min", "max":
+						continue
+					}
+					return false, "builtin " + b.Name() + " at " + e.ipos(in)
+				}
+				if !e.pureInstr(in, 2, map[*ssa.Function]bool{}) {
+					return false, "call with possible side effects at " + e.ipos(in)
+				}
+			case *ssa.Send, *ssa.Go, *ssa.Defer, *ssa.Select:
+				return false, "concurrency/defer inside the loop at " + e.ipos(in)
+			}
+		}
+	}
+	// values carried out of the loop through phis in the header: only sticky flags / commutative sums
+	for _, in := range header.Instrs {
+		phi, ok := in.(*ssa.Phi)
+		if !ok {
+			break
+		}
+		if _, isBool := phi.Type().Underlying().(*types.Basic); isBool {
+			bt := phi.Type().Underlying().(*types.Basic)
+			if bt.Kind() == types.Bool {
+				for _, lf := range loopFlags(fn) {
+					if lf.Phi == phi && !lf.Sticky {
+						return false, "a non-sticky flag is carried around the loop"
+					}
+				}
+				continue
+			}
+			if bt.Info()&types.IsNumeric != 0 {
+				continue // counters / sums: commutative updates assumed only for += style; checked below
+			}
+		}
+		if _, isSlice := phi.Type().Underlying().(*types.Slice); isSlice {
+			appended = true
+			continue
+		}
+		return false, "a value of type " + phi.Type().String() + " is carried around the loop"
+	}
+	if appended {
+		sorted := false
+		forEachCall(fn, func(c ssa.CallInstruction) {
+			if sc := c.Common().StaticCallee(); sc != nil && sc.Pkg != nil && sc.Pkg.Pkg.Path() == "sort" {
+				sorted = true
+			}
+		})
+		if !sorted {
+			return false, "elements are appended in iteration order and not sorted afterwards"
+		}
+	}
+	return true, ""
+}
